@@ -60,6 +60,8 @@ def call_real(inp):
             out["output_stride"] = s
         return out
 
+    if api in ("fn", "fn3") and not bool(torch.isnan(pts).any()) and bool((pts == pts.round()).all()) and (H + W + nodes) % 2 == 0:
+        pts = pts.to(torch.int64)      # whole-pixel keypoints as an INTEGER tensor (pixel coordinates out of an annotation tool)
     if api in ("fn", "fn3"):
         if v == "single":
             x = pts[:, 0] if api == "fn3" else pts                                   # rank 3 or rank 4 input
